@@ -57,6 +57,10 @@ type unit struct {
 	Shards  int
 	Timeout time.Duration
 	Context json.RawMessage
+	// native fuzzing unit: the binary runs `-test.fuzz Fuzz -test.fuzztime FuzzTime` (coverage-guided, all cores) in a
+	// scratch directory; a crasher reaches the driver through the replay file the fuzz target writes
+	Fuzz     string
+	FuzzTime time.Duration
 }
 
 type shardResult struct {
@@ -166,8 +170,31 @@ func runShard(u *unit, shard int, id, tier string, extraEnv []string) shardResul
 	}, u.Env...)
 	env = append(env, extraEnv...)
 	args := []string{"-test.run", u.Run, "-test.timeout", u.Timeout.String(), "-test.count=1"}
-	out, code, to := runCmd(u.Dir, env, u.Timeout+30*time.Second, u.Binary, args...)
+	dir := u.Dir
+	if u.Fuzz != "" {
+		dir = filepath.Join(workDir, "fuzz-"+sanitize(u.Name))
+		os.MkdirAll(filepath.Join(dir, "cache"), 0o755)
+		args = []string{"-test.run", "^$", "-test.fuzz", u.Fuzz, "-test.fuzztime", u.FuzzTime.String(), "-test.fuzzcachedir", filepath.Join(dir, "cache"), "-test.parallel", "12", "-test.timeout", u.Timeout.String()}
+	}
+	out, code, to := runCmd(dir, env, u.Timeout+30*time.Second, u.Binary, args...)
 	r := shardResult{unit: u, shard: shard, exit: code, out: out, timedOut: to}
+	if u.Fuzz != "" {
+		// the fuzzing engine reports its work itself: "fuzz: elapsed: 1m0s, execs: 2548341 (42472/sec), new interesting: 38 (total: 120)"
+		var execs, interesting int64
+		for _, line := range strings.Split(out, "\n") {
+			if i := strings.Index(line, "execs: "); i >= 0 && strings.HasPrefix(strings.TrimSpace(line), "fuzz: elapsed") {
+				fmt.Sscanf(line[i:], "execs: %d", &execs)
+				if j := strings.Index(line, "(total: "); j >= 0 {
+					fmt.Sscanf(line[j:], "(total: %d", &interesting)
+				}
+			}
+		}
+		r.stats = &statsFile{Classes: map[string]int64{"native-fuzz-execs": execs, "native-fuzz-corpus-entries": interesting}}
+		if _, err := os.Stat(replayPath); err == nil {
+			r.replay = replayPath
+		}
+		return r
+	}
 	if b, err := os.ReadFile(statsPath); err == nil {
 		var s statsFile
 		if json.Unmarshal(b, &s) == nil {
